@@ -553,4 +553,14 @@ def arguments_untouched(repo: Repo) -> RuleRun:
 
 arguments_untouched.rule_id = "C10.ARGUMENTS-UNTOUCHED"
 
-RULES = [face_permutations, edge_map_rule, side_addressing, select_polarity, arguments_untouched]
+def written_sides(repo: Repo) -> RuleRun:
+    """'projected quads in the written file': FaceList writes the quad of the side that was projected (top as top). Same rule as C06.SIDE-TABLES."""
+    from ..report import rebrand
+    from . import c06
+
+    return rebrand(c06.side_tables(repo), PROP, "C10.WRITTEN-SIDES")
+
+
+written_sides.rule_id = "C10.WRITTEN-SIDES"
+
+RULES = [face_permutations, edge_map_rule, side_addressing, select_polarity, arguments_untouched, written_sides]
